@@ -363,7 +363,12 @@ func (fc *FnCtx) deref(st *State, p Val, pos token.Pos) Val {
 	}
 	key := "P$" + fc.typeName(pt.Elem())
 	arr := fc.heapGet(st, key, fmt.Sprintf("(Array Int %s)", fc.sortOf(pt.Elem())))
-	return Val{T: app("select", arr, p.T), Ty: pt.Elem()}
+	t := app("select", arr, p.T)
+	if _, isSlice := pt.Elem().Underlying().(*types.Slice); isSlice && fc.inSpec == 0 {
+		// a slice header stored behind a pointer is a real slice header (same fact as for a slice-typed field)
+		fc.assume(st, fc.wellFormed(t, pt.Elem()))
+	}
+	return Val{T: t, Ty: pt.Elem()}
 }
 
 // addrOf: &x for composite literals (allocation), fields (interior pointer), variables (boxed on demand).
